@@ -173,35 +173,50 @@ static void child_body(const Inp &in, const std::vector<Config> &cfgs, int from,
     churn.release(); vf::alloc::set_fill(vf::alloc::FNATIVE, 1);
 }
 
-static BatchResult run_batch(const Inp &in, const std::vector<Config> &cfgs, int fill, uint64_t seed) {
-    BatchResult R; R.recs.resize(cfgs.size());
-    if (!g_fork) { std::string mem; Sink s; s.mem = &mem; child_body(in, cfgs, 0, fill, seed, s); parse_records(mem, R.recs); return R; }
-    int from = 0; static int serial = 0;
-    while (from < (int)cfgs.size()) {
-        int pf[2]; if (pipe(pf)) { perror("pipe"); exit(3); }
-        std::string errpath = std::string(getenv("VF_OUT") ? getenv("VF_OUT") : "/tmp/c10") + ".child" + std::to_string(getpid()) + "." + std::to_string(serial++) + ".err";
-        fflush(nullptr);
-        pid_t pid = fork(); if (pid < 0) { perror("fork"); exit(3); }
-        if (pid == 0) {
-            close(pf[0]); int ef = open(errpath.c_str(), O_WRONLY | O_CREAT | O_TRUNC, 0644); if (ef >= 0) { dup2(ef, 2); dup2(ef, 1); close(ef); }
-            Sink s; s.fd = pf[1]; child_body(in, cfgs, from, fill, seed, s);
-            int leak = 0;
+struct Spawn { bool clean = false; int status = 0; std::string txt, err; };
+// run configs [from, to) in a forked child; records are parsed into recs
+static Spawn spawn(const Inp &in, const std::vector<Config> &cfgs, int from, int to, int fill, uint64_t seed, std::vector<Rec> &recs) {
+    static int serial = 0; Spawn S;
+    int pf[2]; if (pipe(pf)) { perror("pipe"); exit(3); }
+    std::string errpath = std::string(getenv("VF_OUT") ? getenv("VF_OUT") : "/tmp/c10") + ".child" + std::to_string(getpid()) + "." + std::to_string(serial++) + ".err";
+    fflush(nullptr);
+    pid_t pid = fork(); if (pid < 0) { perror("fork"); exit(3); }
+    if (pid == 0) {
+        close(pf[0]); int ef = open(errpath.c_str(), O_WRONLY | O_CREAT | O_TRUNC, 0644); if (ef >= 0) { dup2(ef, 2); dup2(ef, 1); close(ef); }
+        Sink s; s.fd = pf[1]; std::vector<Config> part(cfgs.begin(), cfgs.begin() + to); child_body(in, part, from, fill, seed, s);
+        int leak = 0;
 #if defined(__SANITIZE_ADDRESS__)
-            leak = __lsan_do_recoverable_leak_check();
+        leak = __lsan_do_recoverable_leak_check();
 #endif
-            s.put(std::string("L\x1f") + std::to_string(leak)); close(pf[1]); _exit(0);
-        }
-        close(pf[1]); std::string txt; char buf[65536]; ssize_t r; while ((r = read(pf[0], buf, sizeof buf)) > 0) txt.append(buf, (size_t)r); close(pf[0]);
-        int status = 0; waitpid(pid, &status, 0);
-        parse_records(txt, R.recs);
-        bool clean = WIFEXITED(status) && WEXITSTATUS(status) == 0;
-        if (clean) { if (txt.find("L\x1f" "1") != std::string::npos) { R.leak = true; R.leak_text = slurp(errpath); } unlink(errpath.c_str()); break; }
+        s.put(std::string("L\x1f") + std::to_string(leak)); close(pf[1]); _exit(0);
+    }
+    close(pf[1]); char buf[65536]; ssize_t r; while ((r = read(pf[0], buf, sizeof buf)) > 0) S.txt.append(buf, (size_t)r); close(pf[0]);
+    waitpid(pid, &S.status, 0);
+    parse_records(S.txt, recs);
+    S.clean = WIFEXITED(S.status) && WEXITSTATUS(S.status) == 0;
+    S.err = slurp(errpath); unlink(errpath.c_str());
+    return S;
+}
+
+static BatchResult run_batch(const Inp &in, const std::vector<Config> &cfgs, int fill, uint64_t seed) {
+    BatchResult R; const int N = (int)cfgs.size(); R.recs.resize(N);
+    if (!g_fork) { std::string mem; Sink s; s.mem = &mem; child_body(in, cfgs, 0, fill, seed, s); parse_records(mem, R.recs); return R; }
+    int from = 0;
+    while (from < N) {
+        Spawn S = spawn(in, cfgs, from, N, fill, seed, R.recs);
+        if (S.clean) { if (S.txt.find("L\x1f" "1") != std::string::npos) { R.leak = true; R.leak_text = S.err; } break; }
         // abnormal end: the run in progress is the first started-but-not-ended one at or after `from`
-        int bad = -1; for (int k = from; k < (int)cfgs.size(); ++k) if (R.recs[k].started && !R.recs[k].ended) { bad = k; break; }
-        std::string err = slurp(errpath); unlink(errpath.c_str());
-        if (bad < 0) { fprintf(stderr, "c10_heap: child died outside a monitored run (status %d): %s\n", status, err.substr(0, 2000).c_str()); exit(3); }
-        R.crashes.emplace_back(bad, triage(err, status)); if (R.crash_text.empty()) R.crash_text = err.substr(0, 1500);
-        from = bad + 1;
+        int bad = -1; for (int k = from; k < N; ++k) if (R.recs[k].started && !R.recs[k].ended) { bad = k; break; }
+        if (bad >= 0) { R.crashes.emplace_back(bad, triage(S.err, S.status)); if (R.crash_text.empty()) R.crash_text = S.err.substr(0, 1500); from = bad + 1; continue; }
+        // the child died between runs or at its exit (e.g. glibc detecting a corrupted heap in a later free): pin the run down by
+        // repeating the finished ones one per child
+        int last = -1; for (int k = from; k < N; ++k) if (R.recs[k].ended) last = k;
+        if (last < 0) { fprintf(stderr, "c10_heap: child died outside a monitored run (status %d): %s\n", S.status, S.err.substr(0, 2000).c_str()); exit(3); }
+        int culprit = -1; std::string cerr = S.err; int cstatus = S.status;
+        for (int k = from; k <= last && culprit < 0; ++k) { std::vector<Rec> scratch(N); Spawn T = spawn(in, cfgs, k, k + 1, fill, seed, scratch); if (!T.clean) { culprit = k; cerr = T.err; cstatus = T.status; } }
+        if (culprit < 0) culprit = last;
+        R.crashes.emplace_back(culprit, triage(cerr, cstatus) + ":after-run"); if (R.crash_text.empty()) R.crash_text = "process died after the run had returned (heap corruption detected later): " + cerr.substr(0, 1400);
+        R.recs[culprit].ended = false; from = last + 1;
     }
     return R;
 }
